@@ -46,11 +46,12 @@ Proof.
   destruct (i <? length l')%nat; reflexivity.
 Qed.
 
-Lemma post_recv_lifecycle se m t se' r :
-  session_post_recv se m t = (se', r) -> s_key se = m_key m ->
-  forall i, lifecycle (LRx m) (s_key se) (s_expired se) (view se i) (view se' i).
+Lemma post_recv_lifecycle se m0 m t se' r :
+  session_post_recv se m t = (se', r) -> s_key se = m_key m0 ->
+  m_exid m = m_exid m0 -> m_init m = m_init m0 -> m_op m = m_op m0 ->
+  forall i, lifecycle (LRx m0) (s_key se) (s_expired se) (view se i) (view se' i).
 Proof.
-  intros H Hk j. unfold view.
+  intros H Hk Ex Ei Eo j. unfold view.
   destruct (session_post_recv_cases _ _ _ _ _ H) as [[_ [_ E]]|[_ [C|C]]].
   - rewrite E. constructor.
   - destruct C as [i [e [Hf [[e' [He [_ E]]]|[_ [_ E]]]]]]; rewrite E; [|constructor].
@@ -67,7 +68,7 @@ Proof.
     + assert (Hlt : (j < length l')%nat) by (apply nth_error_Some; congruence).
       destruct (Nat.ltb_spec j (length l')); [|lia]. cbn [oview]. rewrite Hid, Hro.
       assert (Hv : oview (nth_error (s_exchs se) j) = None) by (destruct Hfree as [-> | ->]; reflexivity).
-      rewrite Hv. apply (LcOpen _ _ _ m); try reflexivity; try assumption. symmetry. exact Hk.
+      rewrite Hv. rewrite Ex. apply (LcOpen _ _ _ m0); try reflexivity; try congruence.
     + rewrite (Hoth j) by congruence. constructor.
 Qed.
 
@@ -124,55 +125,75 @@ Theorem slot_lifecycle s l s' ev :
   Inv s -> step false s l = Some (s', ev) ->
   forall se', In se' (sessions s') -> from_old l (sessions s) se' \/ brand_new l (sessions s) se'.
 Proof.
-  intros I. destruct l as [m| |sid idx|sid idx|sid idx|sid idx ctr rel|sid exid| | | |key enc|sid|sid|d];
+  intros I. destruct l as [m| |sid idx|sid idx|sid idx|sid idx ctr rel|sid exid| | | |key enc grp|sid|sid|d];
     cbn [step].
   - (* LRx *)
     destruct (rx s); try discriminate. intros H; inversion H as [H1]; clear H. revert H1. unfold do_rx.
+    (* whatever the outcome, the resulting table is the intermediate one or has one session less *)
+    assert (Hdisp : forall (ss1 : list session) nsid (sidr : N) (r : res bool) s2 ev2,
+      (let mk ss r0 := mkSys ss r0 (handles s) (now s) nsid in
+       match r with
+       | Ok _ =>
+           if is_standalone_ack (m_op m) then (mk ss1 RxEmpty, [])
+           else match m_op m with
+                | OpScClose => (mk (remove_sid ss1 sidr) RxEmpty, [EvPeerClosed sidr])
+                | _ => (mk ss1 (RxHolding m), [EvKeep m])
+                end
+       | Err c =>
+           if c =? ERR_DUPLICATE then
+             (mk ss1 RxEmpty, if m_group m || is_standalone_ack (m_op m) then [] else [EvDupAck (m_key m) (m_ctr m)])
+           else if c =? ERR_NO_SPACE_EXCHANGES then
+             (mk (remove_sid ss1 sidr) RxEmpty, [EvNoSpaceClose sidr])
+           else if c =? ERR_NO_SESSION then (mk ss1 RxEmpty, [EvSessionNotFound m])
+           else if (c =? ERR_NO_EXCHANGE) && is_close (m_op m) then
+             (mk (remove_sid ss1 sidr) RxEmpty, [EvPeerClosed sidr])
+           else (mk ss1 RxEmpty, [])
+       | Panic _ => (mk ss1 RxEmpty, [])
+       end) = (s2, ev2) -> forall x, In x (sessions s2) -> In x ss1).
+    { intros ss1 nsid sidr r s2 ev2. cbn zeta.
+      destruct r as [b|c|p];
+        repeat match goal with |- context [if ?b then _ else _] => destruct b end;
+        try destruct (m_op m); intros H; inversion H; subst; simp_sys; intros x Hx;
+        try exact Hx; eapply in_remove_sid; exact Hx. }
     destruct (find_key (sessions s) (m_key m)) as [se|] eqn:Hk.
     + destruct (find_key_some _ _ _ Hk) as [Hse Hkey].
-      destruct (session_post_recv se m (now s)) as [se1 r] eqn:Hp.
+      set (m1 := if s_group se then strip_mrp m else m).
+      assert (Em : m_exid m1 = m_exid m /\ m_init m1 = m_init m /\ m_op m1 = m_op m).
+      { unfold m1. destruct (s_group se); repeat split. }
+      destruct (session_post_recv se m1 (now s)) as [se1 r] eqn:Hp.
       destruct (session_post_recv_fields _ _ _ _ _ Hp) as [Eid [Ekey _]].
       assert (Hupd : forall x, In x (upd_sid (sessions s) (s_id se) (fun _ => se1)) ->
                 from_old (LRx m) (sessions s) x).
       { intros x0 Hx0. eapply from_old_upd; [|exact Hx0]. intros y Hy Ey.
         assert (y = se) by (eapply nodup_sid_unique; [apply (inv_nodup _ I)| | |]; eassumption). subst y.
-        repeat split; try assumption. intros i. eapply post_recv_lifecycle; eassumption. }
-      cbn zeta. intros H1 se' Hin. left.
-      assert (Hin' : In se' (upd_sid (sessions s) (s_id se) (fun _ => se1))).
-      { revert H1. destruct r as [b|c|p].
-        - destruct (is_standalone_ack (m_op m)); [intros H; inversion H; subst; exact Hin|].
-          destruct (m_op m); intros H; inversion H; subst; simp_sys;
-            try exact Hin; eapply in_remove_sid; exact Hin.
-        - destruct (c =? ERR_DUPLICATE); [intros H; inversion H; subst; exact Hin|].
-          destruct (c =? ERR_NO_SPACE_EXCHANGES);
-            [intros H; inversion H; subst; simp_sys; eapply in_remove_sid; exact Hin|].
-          destruct (c =? ERR_NO_SESSION); intros H; inversion H; subst; exact Hin.
-        - intros H; inversion H; subst; exact Hin. }
-      apply Hupd. exact Hin'.
-    + destruct (negb (m_enc m) && is_new_session (m_op m)).
-      * destruct (session_post_recv (new_session (next_sid s) (m_key m) false) m (now s)) as [se1 r] eqn:Hp.
-        destruct (session_post_recv_fields _ _ _ _ _ Hp) as [Eid [Ekey [_ Eexp]]]. simp_sess.
-        assert (Hnew : brand_new (LRx m) (sessions s) se1).
-        { split.
-          - intros y Hy. pose proof (inv_lt _ I y Hy). lia.
-          - intros i. pose proof (post_recv_lifecycle _ _ _ _ _ Hp eq_refl i) as L. simp_sess.
-            rewrite Ekey. unfold view at 1 in L. simp_sess.
-            replace (nth_error (@nil (option exch)) i) with (@None (option exch)) in L by (destruct i; reflexivity).
-            exact L. }
-        cbn zeta. intros H1 se' Hin.
-        assert (Hin' : In se' (sessions s ++ [se1])).
-        { revert H1. destruct r as [b|c|p].
-          - destruct (is_standalone_ack (m_op m)); [intros H; inversion H; subst; exact Hin|].
-            destruct (m_op m); intros H; inversion H; subst; simp_sys;
-              try exact Hin; eapply in_remove_sid; exact Hin.
-          - destruct (c =? ERR_DUPLICATE); [intros H; inversion H; subst; exact Hin|].
-            destruct (c =? ERR_NO_SPACE_EXCHANGES);
-              [intros H; inversion H; subst; simp_sys; eapply in_remove_sid; exact Hin|].
-            destruct (c =? ERR_NO_SESSION); intros H; inversion H; subst; exact Hin.
-          - intros H; inversion H; subst; exact Hin. }
+        repeat split; try assumption. intros i.
+        eapply (post_recv_lifecycle se m m1); try eassumption; tauto. }
+      intros H1 se' Hin. left. apply Hupd. exact (Hdisp _ _ _ _ _ _ H1 se' Hin).
+    + assert (Hnewgen : forall e g m1 se1 r,
+                m_exid m1 = m_exid m -> m_init m1 = m_init m -> m_op m1 = m_op m ->
+                session_post_recv (new_session (next_sid s) (m_key m) e g) m1 (now s) = (se1, r) ->
+                brand_new (LRx m) (sessions s) se1).
+      { intros e g m1 se1 r E1 E2 E3 Hp.
+        destruct (session_post_recv_fields _ _ _ _ _ Hp) as [Eid [Ekey [_ [Eexp _]]]]. simp_sess.
+        split.
+        - intros y Hy. pose proof (inv_lt _ I y Hy). lia.
+        - intros i. pose proof (post_recv_lifecycle _ m m1 _ _ _ Hp eq_refl E1 E2 E3 i) as L. simp_sess.
+          rewrite Ekey. unfold view at 1 in L. simp_sess.
+          replace (nth_error (@nil (option exch)) i) with (@None (option exch)) in L by (destruct i; reflexivity).
+          exact L. }
+      destruct (negb (m_enc m) && is_new_session (m_op m)).
+      * destruct (session_post_recv (new_session (next_sid s) (m_key m) false false) m (now s)) as [se1 r] eqn:Hp.
+        pose proof (Hnewgen _ _ _ _ _ eq_refl eq_refl eq_refl Hp) as Hnew.
+        intros H1 se' Hin. pose proof (Hdisp _ _ _ _ _ _ H1 se' Hin) as Hin'.
         apply in_app_or in Hin'. destruct Hin' as [Hold|[<-|[]]];
           [left; apply from_old_self; exact Hold|right; exact Hnew].
-      * cbn zeta. intros H1; inversion H1; subst. intros se' Hin. left. apply from_old_self. exact Hin.
+      * destruct (m_enc m && m_group m).
+        -- destruct (session_post_recv (new_session (next_sid s) (m_key m) true true) (strip_mrp m) (now s)) as [se1 r] eqn:Hp.
+           pose proof (Hnewgen _ _ (strip_mrp m) _ _ eq_refl eq_refl eq_refl Hp) as Hnew.
+           intros H1 se' Hin. pose proof (Hdisp _ _ _ _ _ _ H1 se' Hin) as Hin'.
+           apply in_app_or in Hin'. destruct Hin' as [Hold|[<-|[]]];
+             [left; apply from_old_self; exact Hold|right; exact Hnew].
+        -- cbn zeta. intros H1; inversion H1; subst. intros se' Hin. left. apply from_old_self. exact Hin.
   - (* LAccept *)
     destruct (rx s) as [|m|]; try discriminate.
     destruct (owner_of (sessions s) m) as [[[se i] e]|] eqn:Ho; [|discriminate].
@@ -201,17 +222,23 @@ Proof.
     destruct (find_sid_some _ _ _ Hf) as [Hse Eid]. subst sid.
     pose proof (inv_hdl _ I se idx Hse Hh) as Hown.
     destruct (nth_error (s_exchs se) idx) as [[e|]|] eqn:Hn; try (apply from_old_self; exact Hin).
-    cbn in Hown. unfold remove_exch in Hin.
+    cbn in Hown. apply in_group_gc in Hin. unfold remove_exch in Hin.
     destruct (retrans_pending e || ack_pending e).
     + eapply (from_old_slot _ _ se idx); [apply (inv_nodup _ I)|exact Hse| |exact Hin].
       intros x Hx. rewrite Hn in Hx. inversion Hx; subst x. cbn. eapply LcDrop; [reflexivity|exact Hown].
     + eapply (from_old_slot _ _ se idx); [apply (inv_nodup _ I)|exact Hse| |exact Hin].
       intros x Hx. rewrite Hn in Hx. inversion Hx; subst x. cbn. eapply LcDropFree; [reflexivity|exact Hown].
   - (* LSend *)
-    destruct (has_handle s sid idx); [|discriminate].
-    destruct (find_sid (sessions s) sid) as [se|] eqn:Hf; [|discriminate].
+    destruct (has_handle s sid idx); [|discriminate]. cbn zeta.
+    assert (Hsame : forall q : sys, sessions q = sessions s ->
+              Some (q, @nil event) = Some (s', ev) ->
+              forall se', In se' (sessions s') -> from_old (LSend sid idx ctr rel) (sessions s) se' \/
+                                                  brand_new (LSend sid idx ctr rel) (sessions s) se').
+    { intros q Eq H; inversion H; subst. intros se' Hin. left. apply from_old_self. rewrite <- Eq. exact Hin. }
+    destruct (find_sid (sessions s) sid) as [se|] eqn:Hf; [|apply Hsame; reflexivity].
     destruct (find_sid_some _ _ _ Hf) as [Hse Eid]. subst sid.
-    destruct (nth_error (s_exchs se) idx) as [[e|]|] eqn:Hn; try discriminate.
+    destruct (nth_error (s_exchs se) idx) as [[e|]|] eqn:Hn; try (apply Hsame; reflexivity).
+    destruct (s_group se); [apply Hsame; reflexivity|]. clear Hsame.
     destruct (rm_pre_send (e_mrp e) ctr rel None) as [r' rr].
     assert (Hres : forall se', In se' (set_slot (sessions s) (s_id se) idx (Some (mkExch (e_id e) (e_role e) r' (e_rat e)))) ->
               from_old (LSend (s_id se) idx ctr rel) (sessions s) se').
@@ -260,7 +287,7 @@ Proof.
     destruct (retrans_pending e).
     + intros H; inversion H; subst; clear H. simp_sys. intros se' Hin. left.
       apply from_old_self. eapply in_remove_sid. exact Hin.
-    + intros H; inversion H; subst; clear H. simp_sys. intros se' Hin. left.
+    + intros H; inversion H; subst; clear H. simp_sys. intros se' Hin. left. apply in_group_gc in Hin.
       eapply (from_old_slot _ _ se i); [apply (inv_nodup _ I)|exact Hse| |exact Hin].
       intros x Hx. rewrite Hn in Hx. inversion Hx; subst x. cbn. apply LcClose; [reflexivity|exact Hd].
   - (* LAddSession *)
